@@ -68,7 +68,7 @@ CLAIMED = {
         note="" + E1 + " Outside: regex terminals on words outside the stated alphabets, words beyond the bound, grammars outside the family, bit-level inputs.", ref="DESIGN.md section 3 C15"),
     "C16": dict(
         technique="bounded symbolic execution of generation and subtree replacement on specs with generators (symbolic draws, symbolic generator return value, symbolic replaced node)",
-        text="For 4 specs (two distinct arguments, same symbol twice, nested generated argument, stub generator): on every path each generator-defined field equals the generator (re-implemented in the harness) applied to the arguments recorded in .sources, its children are read-only; replace() of any node (sources included) keeps these invariants, never replaces read-only nodes, never modifies its input; a stub value that does not fit the rule raises FandangoParseError, a fitting one appears verbatim.",
+        text="For 5 specs (two distinct arguments, same symbol twice, nested generated argument, a re-run value that does not fit its rule, stub generator): on every path each generator-defined field equals the generator (re-implemented in the harness) applied to the arguments recorded in .sources, its children are read-only; replace() of any node (sources included) keeps these invariants, never replaces read-only nodes, never modifies its input; a stub value that does not fit the rule raises FandangoParseError, a fitting one appears verbatim.",
         note=E1 + " Outside: random generators, converters, longer operator histories.", ref="DESIGN.md section 3 C16"),
     "C18": dict(
         technique="bounded symbolic execution of the real adaptive step (extracted from the current source) inside the real generate(), observing an unrelated spec object; symbolic parse-request histories over two spec objects",
